@@ -17,7 +17,7 @@ from lib.common import MachineryError, classify_mismatches, log
 
 PKG = "./p2p/net/conngater"
 
-INV = "INVARIANTS TypeOK DurableDisk Durable MemDiskAgree"
+INV = "INVARIANTS TypeOK DurableDisk Durable NoSpurious MemDiskAgree"
 PROPS = "PROPERTIES WriteBeforeMem NeverAdmitted DialRefusedEarly ClosedAtAccept ClosedAfterHandshake NotOverBlocking"
 
 
@@ -53,18 +53,30 @@ def exhaustive_instances(ctx):
 
 def replay_instances(ctx):
     """Printed completely (state identity without the ghosts) and replayed transition by transition."""
-    out = [
-        inst("persist8", ("p2", "p3"), ("a2", "a6"), ("n31", "n8", "n32", "n128")),
-        inst("interleave4", ("p2",), ("a2",), ("n31", "n8"), eps=("e22", "e23", "e24")),
-    ]
     if ctx.tier == "thorough":
-        out.append(inst("interleave6", ("p2", "p6"), ("a6",), ("n32", "n128"), eps=("e66", "e33", "e32"), tpts=("tcp", "quic")))
-    return out
+        return [
+            inst("persist8", ("p2", "p3"), ("a2", "a6"), ("n31", "n8", "n32", "n128")),
+            inst("interleave4", ("p2",), ("a2",), ("n31", "n8"), eps=("e22", "e23", "e24")),
+            inst("interleave5", ("p2", "p6"), ("a6",), ("n32", "n128"), eps=("e66", "e33", "e32"), tpts=("tcp", "quic")),
+        ]
+    return [
+        inst("persist7", ("p2",), ("a2", "a6"), ("n31", "n8", "n32", "n128")),
+        inst("interleave3", ("p2",), ("a2",), ("n31",), eps=("e22", "e23")),
+    ]
+
+
+def alias_instance(ctx):
+    """Subnets given with host bits set next to their canonical spelling.  In this instance Durable is
+    violated BY DESIGN (known finding: after a reopen the gater lists the masked network, unblocking that
+    listed value succeeds and changes nothing); the driver requires TLC to find it and the replay to
+    reproduce it on the real gater."""
+    return inst("alias4", (), ("a2",), ("n31", "n31h", "n8h"))
 
 
 def net_instance(ctx):
+    tpts = ("tcp", "quic", "ws") if ctx.tier == "thorough" else ("tcp", "quic")
     return inst("net6", ("p2",), ("a2", "a6"), ("n31", "n8", "n128"), eps=("e22", "e33", "e66"),
-                tpts=("tcp", "quic"), faults=("crash",), exclusive=True)
+                tpts=tpts, faults=("crash",), exclusive=True)
 
 
 def _exhaustive(args):
@@ -74,6 +86,22 @@ def _exhaustive(args):
     if not r.ok:
         raise MachineryError("design-level failure in C10 %s: %s violated\n%s" % (name, r.violated, r.out[-2500:]))
     return name, r.distinct, r.generated, r.wall
+
+
+def _alias(args):
+    ctx, (name, consts) = args
+    cfg = tlc.subst_cfg("C10_MC.cfg", consts)
+    r = tlc.run(ctx, "C10_MC", "gen_%s_mc.cfg" % name, cfg_text=cfg, workers=1, timeout=600, name="mc" + name)
+    if r.ok:
+        return name, False, r.distinct, r.generated
+    if r.violated != "Durable":
+        raise MachineryError("instance %s: unexpected design-level failure %s\n%s" % (name, r.violated, r.out[-2000:]))
+    # every other invariant and property must hold there
+    cfg = tlc.subst_cfg("C10_MC.cfg", consts, replace=[(INV, INV.replace(" Durable ", " "))])
+    r2 = tlc.run(ctx, "C10_MC", "gen_%s_mc2.cfg" % name, cfg_text=cfg, workers=1, timeout=600, name="mc2" + name)
+    if not r2.ok:
+        raise MachineryError("instance %s: %s violated besides Durable\n%s" % (name, r2.violated, r2.out[-2000:]))
+    return name, True, r2.distinct, r2.generated
 
 
 def _probe(args):
@@ -98,6 +126,23 @@ def _kind(op):
     elif k == "att_step" and op["end"] != "-":
         k += ":%s@%s:%s" % (op["end"], op["stage"], op["dir"])
     return k
+
+
+ALIAS_SCRIPT = [{"name": "begin", "kind": "block", "r": "n31h"}, {"name": "write", "outcome": "ok"}, {"name": "finish"},
+                {"name": "crash", "at": "idle"}, {"name": "reopen"},
+                {"name": "begin", "kind": "unblock", "r": "n31"}, {"name": "write", "outcome": "ok"}, {"name": "finish"}]
+
+
+def _scripted(g, ops):
+    """The walk from the initial state that follows the given (partial) action records."""
+    cur, path = g.inits[0], []
+    for want in ops:
+        nxt = [ei for ei in g.out.get(cur, ()) if all(g.edges[ei][1].get(k) == v for k, v in want.items())]
+        if len(nxt) != 1:
+            raise MachineryError("scripted walk: %d edges match %s" % (len(nxt), want))
+        path.append(nxt[0])
+        cur = g.edges[nxt[0]][2]
+    return g._mk(g.inits[0], path)
 
 
 def _printed(args):
@@ -127,6 +172,8 @@ def _printed(args):
     else:
         n, depth = mode
         walks = g.random_walks(n, depth, seed=ctx.seed)
+    if name.startswith("alias"):
+        walks = [_scripted(g, ALIAS_SCRIPT)] + walks      # TLC's counterexample of Durable first: a short artefact
     steps = sum(len(w["steps"]) for w in walks)
     graph.write_behaviours(os.path.join(beh_dir, name + ".jsonl"), walks, hdr)
     return name, r.distinct, r.generated, g.n_edges(), len(walks), steps, kinds, r.wall
@@ -144,6 +191,8 @@ def run(ctx):
     tlc.stage(ctx)
     beh_dir, net_dir = ctx.sub("beh"), ctx.sub("net")
     einsts, rinsts, ninst = exhaustive_instances(ctx), replay_instances(ctx), net_instance(ctx)
+    ainst = alias_instance(ctx)
+    rinsts = rinsts + [ainst]
     net_mode = "cover"
 
     # at most 4 TLC workers at a time: the exhaustive lane uses 2, the two printing lanes 1 each; the test binary
@@ -155,11 +204,13 @@ def run(ctx):
         fr = [pr.submit(_printed, (ctx, i, beh_dir, "cover")) for i in rinsts]
         fn = pr.submit(_printed, (ctx, ninst, net_dir, net_mode))
         probe_inst = inst("probe3", ("p2",), ("a2",), ("n31",), eps=("e22", "e23"))
+        fa = pr.submit(_alias, (ctx, ainst))
         fg = [pr.submit(_probe, (ctx, probe_inst, p, isp)) for p, isp in
               (("ReachMemDiskDiffer", False), ("ReachFreeAfterReopen", False), ("ReachAdmittedWhileSomeRule", True))]
         rres = [f.result() for f in fr]
         nres = fn.result()
         guards = [f.result() for f in fg]
+        ares = fa.result()
         log("C10: graphs and walks done at %.1fs" % ctx.wall())
         rc, out = fb.result()
         if rc != 0:
@@ -181,9 +232,12 @@ def run(ctx):
             raise MachineryError("vacuity guard: no replayed transition of kind %s" % k)
     edges_total = sum(r[3] for r in rres)
 
+    # artefacts are saved per class (a later one overwrites): keep the one with the shortest history
+    for r in (res, net):
+        r["mismatches"].sort(key=lambda m: -len(m.get("prefix") or []))
     div = classify_mismatches(ctx, res, "replay")
     div += classify_mismatches(ctx, net, "net")
-    if not res["mismatches"] and res["distinct"] < edges_total:
+    if res["distinct"] < edges_total:
         raise MachineryError("replay executed %d distinct transitions of %d" % (res["distinct"], edges_total))
     nx = net.get("extra") or {}
     if not net["mismatches"]:
@@ -191,8 +245,14 @@ def run(ctx):
             if not nx.get(k):
                 raise MachineryError("vacuity guard: network composition ran no %s" % k)
 
-    states = sum(r[1] for r in eres) + sum(r[1] for r in rres) + nres[1]
-    trans = sum(r[2] for r in eres) + sum(r[2] for r in rres) + nres[2]
+    states = sum(r[1] for r in eres) + sum(r[1] for r in rres) + nres[1] + ares[2]
+    trans = sum(r[2] for r in eres) + sum(r[2] for r in rres) + nres[2] + ares[3]
+    alias_cls = "acked-unblock-still-listed:subnet:listed-value-of-hostbits-spelling"
+    reproduced = any(v["cls"] == alias_cls for v in ctx.violations)
+    if ares[1] and not reproduced:
+        ctx.notes.append("instance %s violates Durable in the model (listed value of a host-bits subnet cannot be unblocked after a reopen) but the real gater did not reproduce it" % ares[0])
+    if not ares[1]:
+        ctx.notes.append("instance %s: TLC no longer finds the Durable violation of the host-bits spelling" % ares[0])
     log("C10: exhaustive %s; printed %s; net %s; replay %d walks %d steps (%d distinct of %d); net %d walks %d steps %s; L2 divergences %d; guards %s"
         % ([(r[0], r[1], r[2], r[3]) for r in eres], [(r[0], r[1], r[3], r[7]) for r in rres],
            (nres[0], nres[1], nres[3]), res["replayed"], res["steps"], res["distinct"], edges_total,
@@ -208,7 +268,9 @@ def run(ctx):
         replay_distinct_transitions_executed=res["distinct"], replay_transition_kinds=tot,
         replay_extra=res.get("extra"),
         net_instance={"name": nres[0], "states": nres[1], "transitions": nres[3], "walks": nres[4], "steps": nres[5]},
-        net_extra=nx, vacuity_probes=guards, divergences_L2=div, notes=ctx.notes[:10], rule=res.get("rule"),
+        net_extra=nx, vacuity_probes=guards,
+        alias_instance={"name": ares[0], "durable_violated_in_model": ares[1], "reproduced_on_real_gater": reproduced,
+                        "states": ares[2], "transitions": ares[3]}, divergences_L2=div, notes=ctx.notes[:10], rule=res.get("rule"),
         net_rule=net.get("rule"))
     return {"level": "model_checking", "coverage": cov, "assumptions": [
         "bounded instances: <=2 peer rules, 2 address rules (127.0.0.2, ::1), 4 subnets (/8, /31, /32, /128); Block*/Unblock* calls are sequential (one in flight), attempts and crashes interleave with them at the datastore write",
